@@ -18,3 +18,10 @@ func WithCancel(p Context) (Context, CancelFunc)                   { return mcrt
 func WithDeadline(p Context, d time.Time) (Context, CancelFunc)    { return mcrt.WithDeadline(p, d) }
 func WithTimeout(p Context, d time.Duration) (Context, CancelFunc) { return mcrt.WithTimeout(p, d) }
 func WithValue(p Context, k, v interface{}) Context                { return mcrt.WithValue(p, k, v) }
+
+type CancelCauseFunc = mcrt.CancelCauseFunc
+
+func WithCancelCause(p Context) (Context, CancelCauseFunc) { return mcrt.WithCancelCause(p) }
+func Cause(c Context) error                                { return mcrt.Cause(c) }
+func WithoutCancel(p Context) Context                      { return mcrt.WithoutCancel(p) }
+func AfterFunc(c Context, f func()) (stop func() bool)     { return mcrt.CtxAfterFunc(c, f) }
